@@ -14,10 +14,22 @@ func (e *Expr) Eval(data map[string]interface{}) int { return eval(e.node, data)
 
 func eval(n *Node, data map[string]interface{}) int {
 	n.Args = append([]int{1}, n.Args...) // the shared program is modified
-	cache["calls"]++                      // package-level state
-	data["seen"] = true                   // the caller's input
+	cache["calls"]++                     // package-level state
+	data["seen"] = true                  // the caller's input
 	helper(n.Next)
+	if n.Next != nil {
+		n.Next.label() // a by-value receiver whose slice field still points into the program
+	}
 	return len(n.Args)
+}
+
+// label works on a copy of the node, but the copy's slice shares the node's backing array.
+func (n Node) label() int {
+	args := n.Args
+	for i := range args {
+		args[i] = -args[i]
+	}
+	return len(args)
 }
 
 func helper(n *Node) {
